@@ -64,7 +64,7 @@ Reap(w) == /\ spc[w] = "zombie" /\ spc' = [spc EXCEPT ![w] = "free"]
 
 Time   == Tick(T) /\ h' = Append(h, <<0, "tick", "">>) /\ UNCHANGED <<spc, lazy, lazyseen, pending, served>>
 
-SNext == \/ \E w \in Workers : \E p \in {"G", "GP", "H"} : Accept(w, p)
+SNext == \/ \E w \in Workers : \E p \in Protos : Accept(w, p)
          \/ \E w \in Workers : Sniff(w) \/ LazyCheck(w) \/ LazySet(w) \/ Go(w) \/ Work(w) \/ Close(w) \/ Reap(w)
          \/ Time
 
@@ -72,10 +72,10 @@ SSpec == SInit /\ [][SNext]_svars
 
 \* liveness is checked on the time-free behaviours (finite state space without a constraint),
 \* with weak fairness of the accept loop, of every worker and of reaping
-SNextL == \/ \E w \in Workers : \E p \in {"G", "GP", "H"} : Accept(w, p)
+SNextL == \/ \E w \in Workers : \E p \in Protos : Accept(w, p)
           \/ \E w \in Workers : Sniff(w) \/ LazyCheck(w) \/ LazySet(w) \/ Go(w) \/ Work(w) \/ Close(w) \/ Reap(w)
 SFair == /\ SInit /\ [][SNextL]_svars
-         /\ WF_svars(\E w \in Workers : \E p \in {"G", "GP", "H"} : Accept(w, p))
+         /\ WF_svars(\E w \in Workers : \E p \in Protos : Accept(w, p))
          /\ \A w \in Workers : /\ WF_svars(Reap(w))
                                 /\ WF_svars(Sniff(w) \/ LazyCheck(w) \/ LazySet(w) \/ Go(w) \/ Work(w) \/ Close(w))
 
